@@ -1,6 +1,6 @@
 use std::{
     path::{Path, PathBuf},
-    env::current_dir, sync::OnceLock, fs::ReadDir,
+    env::current_dir, sync::OnceLock, fs::ReadDir, ffi::OsStr,
 };
 
 use regex::Regex;
@@ -50,18 +50,17 @@ fn ls_file_dir(file: &Path) -> Result<ReadDir> {
     Ok(ls_dir)
 }
 
-fn filename(path: &Path) -> Result<String> {
+fn filename(path: &Path) -> Result<&OsStr> {
     let fname = path.file_name()
-        .ok_or(XcpError::InvalidArguments(format!("Invalid path found: {:?}", path)))?
-        .to_string_lossy();
-    Ok(fname.to_string())
+        .ok_or(XcpError::InvalidArguments(format!("Invalid path found: {:?}", path)))?;
+    Ok(fname)
 }
 
 fn has_backup(file: &Path) -> Result<bool> {
     let fname = filename(file)?;
     let exists = ls_file_dir(file)?
         .any(|der| if let Ok(de) = der {
-            is_num_backup(&fname, &de.path()).is_some()
+            is_num_backup(fname, &de.path()).is_some()
         } else {
             false
         });
@@ -71,24 +70,24 @@ fn has_backup(file: &Path) -> Result<bool> {
 fn next_backup_num(file: &Path) -> Result<u64> {
     let fname = filename(file)?;
     let current = ls_file_dir(file)?
-        .filter_map(|der| is_num_backup(&fname, &der.ok()?.path()))
+        .filter_map(|der| is_num_backup(fname, &der.ok()?.path()))
         .max()
         .unwrap_or(0);
     Ok(current + 1)
 }
 
-fn is_num_backup(base_file: &str, candidate: &Path) -> Option<u64> {
-    let cname = candidate
-        .file_name()?
-        .to_str()?;
-    if !cname.starts_with(base_file) {
+fn is_num_backup<S: AsRef<OsStr>>(base_file: S, candidate: &Path) -> Option<u64> {
+    // A backup of `name` is exactly `name.~N~`; compare the raw
+    // names so non-UTF-8 files and files which merely share a prefix
+    // are handled correctly.
+    if candidate.file_stem()? != base_file.as_ref() {
         return None
     }
     let ext = candidate
         .extension()?
-        .to_string_lossy();
+        .to_str()?;
     let num = get_regex()
-        .captures(&ext)?
+        .captures(ext)?
         .get(1)?
         .as_str()
         .parse::<u64>()
